@@ -462,7 +462,23 @@ class MailExecutor(UnitsExecutor):
         args = [self.unwrap(st, a) for a in args]
         kwargs = {k: self.unwrap(st, v) for k, v in kwargs.items()}
         try:
-            return super().apply_contract(st, c, args, kwargs, node)
+            try:
+                return super().apply_contract(st.fork() if any(isinstance(a, VOpt) for a in list(args) + list(kwargs.values())) else st, c, args, kwargs, node)
+            except (AttributeError, TypeError, KeyError, IndexError, z3.Z3Exception):
+                # an Optional value (present or not, undecided on this path) handed to a contract written over None | value:
+                # the two cases are taken separately
+                k = next((i for i, a in enumerate(args) if isinstance(a, VOpt)), None)
+                kw = next((n_ for n_, a in kwargs.items() if isinstance(a, VOpt)), None) if k is None else None
+                if k is None and kw is None:
+                    raise
+                a = args[k] if k is not None else kwargs[kw]
+                out = []
+                for cond, val in ((a.none, NONE), (z3.Not(a.none), a.val)):
+                    s2 = st.fork().assume(cond)
+                    args2 = [val if i == k else x for i, x in enumerate(args)]
+                    kwargs2 = {n_: (val if n_ == kw else x) for n_, x in kwargs.items()}
+                    out.extend(self.apply_contract(s2, c, args2, kwargs2, node))
+                return out
         except (AttributeError, TypeError, KeyError, IndexError, z3.Z3Exception) as e:
             # a clause of the callee's contract is not applicable to the values the (changed) code passes: unrecognised shape
             raise Unsupported(f"{self.loc(node)} contract of {c.target.split('::')[-1]} not applicable here: {type(e).__name__}: {e}"[:300])
@@ -788,7 +804,29 @@ class MailExecutor(UnitsExecutor):
         kinds, self._probe_kinds = self._probe_kinds, {}
         return kinds
 
+    def loop_spec(self, node):
+        """A contract may give ONE invariant for whatever loops the body has (`loops={"*": LoopSpec(inv=..)}`): the invariant
+        decides from the sequence the loop walks what it has to say, so adding, removing or reordering loops re-verifies.  The
+        label (part of the obligation ids) is the last name of the iterated expression (`for a in mail.attachments` -> attachments)."""
+        spec = super().loop_spec(node)
+        if spec is None and self.contract is not None and self.inline_depth == 0 and "*" in self.contract.loops:
+            from pyvc.contracts import LoopSpec
+            e = node.iter if isinstance(node, ast.For) else None
+            while isinstance(e, ast.Call) and e.args:
+                e = e.args[0]
+            label = e.attr if isinstance(e, ast.Attribute) else (e.id if isinstance(e, ast.Name) else "loop")
+            wild = self.contract.loops["*"]
+            return LoopSpec(inv=wild.inv, label=label)
+        return spec
+
     def symbolic_for(self, s, st, it):
+        self._loop_nodes = getattr(self, "_loop_nodes", []) + [s]
+        try:
+            return self._symbolic_for(s, st, it)
+        finally:
+            self._loop_nodes = self._loop_nodes[:-1]
+
+    def _symbolic_for(self, s, st, it):
         if not self._probing:
             builds = any((isinstance(n, ast.Call) and isinstance(n.func, ast.Attribute) and n.func.attr in ("append", "extend"))
                          or (isinstance(n, ast.Subscript) and isinstance(n.ctx, ast.Store))
@@ -970,8 +1008,39 @@ class MailExecutor(UnitsExecutor):
         return out
 
     # ------------------------------------------------------------ dispatch (router) --
+    def _map_as_genexp(self, n, st):
+        """list(map(f, xs)) / tuple(map(f, xs)) with the builtins: the consumer exhausts the map object, so the call is the
+        comprehension `list(f(x) for x in xs)` (same evaluation order, same exceptions).  Only this exact shape (one
+        iterable, no keywords, `list` / `tuple` / `map` not rebound); a bare map object that escapes is NOT a list and stays
+        unmodelled."""
+        try:
+            if not (isinstance(n.func, ast.Name) and n.func.id in ("list", "tuple") and len(n.args) == 1 and not n.keywords):
+                return None
+            m = n.args[0]
+            if not (isinstance(m, ast.Call) and isinstance(m.func, ast.Name) and m.func.id == "map" and len(m.args) == 2 and not m.keywords
+                    and not any(isinstance(a, ast.Starred) for a in m.args)):
+                return None
+            mod = self.module
+            for name in (n.func.id, "map"):
+                if st.lookup(name) is not None or name in mod.functions or name in mod.classes or name in mod.assigns or name in mod.imports:
+                    return None
+            var = "__map_item__"
+            gen = ast.GeneratorExp(elt=ast.Call(func=m.args[0], args=[ast.Name(id=var, ctx=ast.Load())], keywords=[]),
+                                   generators=[ast.comprehension(target=ast.Name(id=var, ctx=ast.Store()), iter=m.args[1], ifs=[], is_async=0)])
+            new = ast.Call(func=n.func, args=[gen], keywords=[])
+            for x in ast.walk(new):
+                if not hasattr(x, "lineno"):
+                    ast.copy_location(x, m)
+            ast.copy_location(new, n)
+            return new
+        except Exception:  # noqa  (not this shape)
+            return None
+
     def e_Call(self, n, st):
         """f(..., **d) with d a dict of concrete string keys: the entries are passed as keyword arguments"""
+        g = self._map_as_genexp(n, st)
+        if g is not None:
+            return self.ev(g, st)
         if not any(k.arg is None for k in n.keywords) or self.is_logger_call(n):
             return super().e_Call(n, st)
         out = []
@@ -1356,10 +1425,25 @@ def appended_names(fnode, ordinal):
     return out
 
 
+def _appended_in(node):
+    out = []
+    for sub in ast.walk(node):
+        if isinstance(sub, ast.Call) and isinstance(sub.func, ast.Attribute) and sub.func.attr == "append" and isinstance(sub.func.value, ast.Name):
+            if sub.func.value.id not in out:
+                out.append(sub.func.value.id)
+    return out
+
+
 def built_list(lc, ordinal=0, kind="str"):
-    """The list the loop builds: the unique variable the loop body appends to."""
+    """The list the loop builds: the unique variable the loop body appends to (ordinal None: the loop being executed)."""
     fnode = lc.st.frame.fnode
-    names = appended_names(fnode, ordinal)
+    if ordinal is None:
+        nodes = getattr(lc.ex, "_loop_nodes", [])
+        if not nodes:
+            raise Unsupported("no loop is being executed")
+        names = _appended_in(nodes[-1])
+    else:
+        names = appended_names(fnode, ordinal)
     if len(names) != 1:
         raise Unsupported(f"loop {ordinal} appends to {names}: expected exactly one list")
     v = lc.st.lookup(names[0])
